@@ -9,6 +9,7 @@ import (
 	"regexp"
 	"sort"
 	"strings"
+	"sync"
 )
 
 // SensResult is the outcome of replaying one confirmed seeded change against
@@ -34,18 +35,39 @@ func sensitivity(prop, repo string, run func(*Program, string) *Ctx) []SensResul
 	sort.Strings(dirs)
 	var out []SensResult
 	for _, d := range dirs {
+		r, p := seedOverlayProgram(d, repo)
+		if p != nil {
+			c := run(p, "overlay:"+r.ID)
+			rules := map[string]bool{}
+			for _, o := range c.Unlisted() {
+				rules[o.Rule] = true
+			}
+			for k := range rules {
+				r.Rules = append(r.Rules, k)
+			}
+			sort.Strings(r.Rules)
+			r.Detected = len(r.Rules) > 0
+		}
+		out = append(out, r)
+	}
+	return out
+}
+
+// seedOverlayProgram loads the current tree with the seeded change of
+// directory d applied in memory; the program is nil when the patch does not
+// apply or the variant does not load (then r says why).
+func seedOverlayProgram(d, repo string) (SensResult, *Program) {
+	{
 		r := SensResult{ID: filepath.Base(d)}
 		patch, err := os.ReadFile(filepath.Join(d, "patch.diff"))
 		if err != nil {
 			r.Note = "no patch.diff"
-			out = append(out, r)
-			continue
+			return r, nil
 		}
 		tmp, err := os.MkdirTemp("", "npsens")
 		if err != nil {
 			r.Note = err.Error()
-			out = append(out, r)
-			continue
+			return r, nil
 		}
 		overlay := map[string][]byte{}
 		ok := true
@@ -79,30 +101,85 @@ func sensitivity(prop, repo string, run func(*Program, string) *Ctx) []SensResul
 		}
 		os.RemoveAll(tmp)
 		if !ok {
-			out = append(out, r)
-			continue
+			return r, nil
 		}
 		r.Applied = true
 		p, err := Load(LoadConfig{Dir: repo, Overlay: overlay})
 		if err != nil {
 			r.Note = "variant does not load: " + err.Error()
 			r.Detected = true
-			out = append(out, r)
-			continue
+			return r, nil
 		}
-		c := run(p, "overlay:"+r.ID)
-		rules := map[string]bool{}
-		for _, o := range c.Unlisted() {
-			rules[o.Rule] = true
-		}
-		for k := range rules {
-			r.Rules = append(r.Rules, k)
-		}
-		sort.Strings(r.Rules)
-		r.Detected = len(r.Rules) > 0
-		out = append(out, r)
+		return r, p
 	}
-	return out
+}
+
+// seedMatrix: every confirmed seeded change x every property, as overlays.
+func seedMatrix(repo, only string, run func(*Program, string, string) *Ctx) int {
+	root := verifRoot()
+	dirs, _ := filepath.Glob(filepath.Join(root, "seeded", "C??-*"))
+	sort.Strings(dirs)
+	if only != "" {
+		dirs = []string{filepath.Join(root, "seeded", only)}
+	}
+	var props []string
+	for id := range registry {
+		if len(id) == 3 && id[0] == 'C' {
+			props = append(props, id)
+		}
+	}
+	sort.Strings(props)
+	type res struct {
+		id, line string
+	}
+	out := make([]res, len(dirs))
+	sem := make(chan struct{}, 1) // the analysis keeps process-wide caches: one variant at a time per process
+	var wg sync.WaitGroup
+	for i, d := range dirs {
+		wg.Add(1)
+		go func(i int, d string) {
+			defer wg.Done()
+			sem <- struct{}{}
+			defer func() { <-sem }()
+			r, p := seedOverlayProgram(d, repo)
+			line := ""
+			if p == nil {
+				line = "(" + r.Note + ")"
+			} else {
+				for _, prop := range props {
+					c := run(p, "overlay:"+r.ID, prop)
+					rules := map[string]bool{}
+					for _, o := range c.Unlisted() {
+						rules[o.Rule] = true
+					}
+					var rs []string
+					for k := range rules {
+						rs = append(rs, k)
+					}
+					sort.Strings(rs)
+					if len(rs) > 0 {
+						line += " " + prop + "[" + strings.Join(rs, ",") + "]"
+					}
+				}
+				if line == "" {
+					line = " MISSED"
+				}
+			}
+			out[i] = res{r.ID, line}
+		}(i, d)
+	}
+	wg.Wait()
+	missed := 0
+	for _, r := range out {
+		fmt.Printf("%s:%s\n", r.id, r.line)
+		if strings.Contains(r.line, "MISSED") {
+			missed++
+		}
+	}
+	if only == "" {
+		fmt.Printf("seeded changes: %d, not reported by any check: %d\n", len(out), missed)
+	}
+	return 0
 }
 
 func replayProp(path string) string {
